@@ -3,18 +3,19 @@ import PeptVerif.Model.Parser
 # The serializer (`_serialize_annotation_start/middle/end`, `MultiProFormaAnnotation.serialize`,
 proforma_parser.py:2456-2548 and 1978-1995)
 
+`plus : Plus` generalises `include_plus` (`constPlus b` is the Python behaviour).
 Python truthiness is kept: `has_x()` is `is not None`; `if annotation.x:` is "not None and not empty"
 (`charge`: not None and not 0).
 -/
 namespace Pept
 
 /-- `for mod in x: comps.append(mod.serialize(...))` guarded by `is not None` or by truthiness (same text) -/
-def optMods (o c : Char) (plus : Bool) : Option (List Mod) → List Char
+def optMods (o c : Char) (plus : Plus) : Option (List Mod) → List Char
   | none => []
   | some l => serializeMods o c plus l
 
 /-- fixed order: labile `{}`, static `<>`, isotope `<>`, unknown `[]…?`, N-term `[]…-` -/
-def serializeStart (plus : Bool) (a : Annotation) : List Char :=
+def serializeStart (plus : Plus) (a : Annotation) : List Char :=
   optMods '{' '}' plus a.labile ++ optMods '<' '>' plus a.static ++ optMods '<' '>' plus a.isotope ++
   (match a.unknown with
    | none => []
@@ -25,11 +26,11 @@ def serializeStart (plus : Bool) (a : Annotation) : List Char :=
 
 /-- the marks one interval contributes in front of residue `i` (`withStart = false` for the pass after the
 last residue, which only closes) -/
-def ivMark (plus : Bool) (i : Int) (withStart : Bool) (iv : Interval) : List Char :=
+def ivMark (plus : Plus) (i : Int) (withStart : Bool) (iv : Interval) : List Char :=
   (if withStart ∧ iv.start = i then '(' :: (if iv.ambiguous then ['?'] else []) else []) ++
   (if iv.stop = i then ')' :: optMods '[' ']' plus iv.mods else [])
 
-def ivMarks (plus : Bool) (ivs : Option (List Interval)) (i : Int) (withStart : Bool) : List Char :=
+def ivMarks (plus : Plus) (ivs : Option (List Interval)) (i : Int) (withStart : Bool) : List Char :=
   (ivs.getD []).flatMap (ivMark plus i withStart)
 
 /-- `annotation.internal_mods[i]` (first entry with that key) -/
@@ -37,22 +38,22 @@ def dictGet (k : Int) : List (Int × List Mod) → Option (List Mod)
   | [] => none
   | (k', v) :: t => if k' = k then some v else dictGet k t
 
-def internalAt (plus : Bool) (d : Option (List (Int × List Mod))) (i : Int) : List Char :=
+def internalAt (plus : Plus) (d : Option (List (Int × List Mod))) (i : Int) : List Char :=
   match d with
   | none => []
   | some l => optMods '[' ']' plus (dictGet i l)
 
 /-- the `for i, aa in enumerate(sequence)` loop from index `i` on, then the closing pass at `len(sequence)` -/
-def serializeResidues (plus : Bool) (a : Annotation) : Int → List Char → List Char
+def serializeResidues (plus : Plus) (a : Annotation) : Int → List Char → List Char
   | i, [] => ivMarks plus a.intervals i false
   | i, aa :: rest =>
     ivMarks plus a.intervals i true ++ aa :: (internalAt plus a.internal i ++
       serializeResidues plus a (i + 1) rest)
 
-def serializeMiddle (plus : Bool) (a : Annotation) : List Char :=
+def serializeMiddle (plus : Plus) (a : Annotation) : List Char :=
   serializeResidues plus a 0 a.seq
 
-def serializeEnd (plus : Bool) (a : Annotation) : List Char :=
+def serializeEnd (plus : Plus) (a : Annotation) : List Char :=
   (match a.cterm with
    | none => []
    | some [] => []
@@ -63,13 +64,13 @@ def serializeEnd (plus : Bool) (a : Annotation) : List Char :=
   optMods '[' ']' plus a.adducts
 
 /-- `ProFormaAnnotation.serialize` -/
-def serialize (plus : Bool) (a : Annotation) : List Char :=
+def serialize (plus : Plus) (a : Annotation) : List Char :=
   serializeStart plus a ++ serializeMiddle plus a ++ serializeEnd plus a
 
 /-- the chain joiner of `MultiProFormaAnnotation.serialize`: `connection is True` writes two backslashes
 (the parser reads `//`: known finding KF-C01-crosslink-backslash), anything else writes `+`.
 `self.connections[i]` past the end of the list is an IndexError. -/
-def serializeMulti (plus : Bool) : List Annotation → List (Option Bool) → Except Err (List Char)
+def serializeMulti (plus : Plus) : List Annotation → List (Option Bool) → Except Err (List Char)
   | [], _ => .ok []
   | [a], _ => .ok (serialize plus a)
   | a :: b :: rest, conns =>
@@ -80,7 +81,7 @@ def serializeMulti (plus : Bool) : List Annotation → List (Option Bool) → Ex
       | .error e => .error e
       | .ok t => .ok (serialize plus a ++ (if cn = some true then ['\\', '\\'] else ['+']) ++ t)
 
-def serializeParsed (plus : Bool) : Parsed → Except Err (List Char)
+def serializeParsed (plus : Plus) : Parsed → Except Err (List Char)
   | .single a => .ok (serialize plus a)
   | .multi as conns => serializeMulti plus as conns
 
